@@ -238,6 +238,9 @@ func (e *em) index(x *ast.IndexExpr) string {
 		k, _ := constant.Int64Val(constant.ToInt(T.info.Types[x.Index].Value))
 		return fmt.Sprintf("%s.w%d", paren(e.expr(x.X)), k)
 	}
+	if isBigWords(xt) {
+		return e.bigIndex(x)
+	}
 	base := paren(e.expr(x.X))
 	if isBytesLike(xt) {
 		t := e.fresh("t")
@@ -534,7 +537,7 @@ func (e *em) callParts(x *ast.CallExpr) (*fn, []string, []ast.Expr) {
 	sig := callee.Type().(*types.Signature)
 	for i, a := range x.Args {
 		if i < sig.Params().Len() {
-			if _, ok := sig.Params().At(i).Type().(*types.Pointer); ok {
+			if _, ok := sig.Params().At(i).Type().(*types.Pointer); ok && !isBigPtr(sig.Params().At(i).Type()) {
 				if u, ok := a.(*ast.UnaryExpr); ok && u.Op == token.AND {
 					inoutExprs = append(inoutExprs, u.X)
 					args = append(args, paren(e.expr(u.X)))
@@ -559,12 +562,18 @@ func (e *em) call(x *ast.CallExpr) string {
 	if tv, ok := T.info.Types[x.Fun]; ok && tv.IsType() {
 		return e.convert(x)
 	}
+	if r, ok := e.bigCall(x); ok {
+		return r
+	}
 	switch f := x.Fun.(type) {
 	case *ast.Ident:
 		if b, ok := T.info.Uses[f].(*types.Builtin); ok {
 			switch b.Name() {
 			case "len":
 				at := T.info.Types[x.Args[0]].Type
+				if isBigWords(at) {
+					return "(Go.BigInt.wlen " + paren(e.expr(x.Args[0])) + ")"
+				}
 				if isBytesLike(at) {
 					return "(Go.len " + paren(e.expr(x.Args[0])) + ")"
 				}
